@@ -1,13 +1,18 @@
-"""C15 - SQL filters select exactly the intended rows; values are always bound (bounded complement; proof tier pending)."""
-from checks._bounded import run_bounded_check
+"""C15 - SQL filters select exactly the intended rows; values are always bound (proof of text/parameters + sqlite3 validation)."""
+from checks._proof import run_proof_check
+
+PROP = 'C15'
 
 
 def run():
-    return run_bounded_check(
-        'C15', 'harness.c15',
-        "every single leaf condition, a grid of OR and AND pairs, kwargs filters and orderings, then seeded condition trees of "
-        "depth <= 2 on a 6-row in-memory sqlite3 table with NULLs, '', quotes and wildcards, against a three-valued "
-        "evaluator of the intended condition; cursor.execute is spied on for placeholders/parameters; non-trivial = a "
-        "NULL-sensitive operator is involved",
-        ["operand type matches the column type; comparison against a set excluded (driver binding error, not a wrong row set)",
-         "LIKE evaluated with sqlite rules (ASCII case-insensitive, no escape character); ORDER BY clauses end in id"])
+    return run_proof_check(
+        PROP, ['contracts.c15_sql'], ['ak.mtd_sql'], level='proof', harness='harness.c15',
+        bounded_rule="validation of the assumed engine semantics: every single leaf condition, a grid of OR and AND pairs, kwargs "
+                     "filters and orderings, then seeded condition trees of depth <= 2 on a 6-row in-memory sqlite3 table with "
+                     "NULLs, '', quotes and wildcards, against a three-valued evaluator of the intended condition; "
+                     "cursor.execute is spied on for placeholders/parameters; non-trivial = a NULL-sensitive operator is involved",
+        extra_assumptions=["static string conditions (caller-supplied SQL text) are excluded",
+                           "comparison operands are scalars (('=', set) reaches the driver as an unbindable parameter: an "
+                           "exception, not a wrong row set)",
+                           "number of placeholders == number of parameters follows from text == render(intent) and "
+                           "values == params(intent): both are built from the same collection length (join_rep(sep, ph, n))"])
